@@ -119,3 +119,11 @@ package data
 //@   assumed
 //@   modifies nothing
 //@   emits Call(code("data|IItemAware.Put"), this)
+
+// Seeding an instance's data objects from their declarations: the body of every declared data object is decoded into
+// a map made for that very data object (a map carried over from the previous one would keep its keys: JSON decoding
+// into a non-empty map adds to it).
+//@ func ElementToLocator
+//@   prop C16
+//@   assert before "container.Put(schema.NewValue(dataObjectBody))" [every-data-object-is-decoded-into-a-map-of-its-own]
+//@             dataObjectBody > athead(1, alloc)
